@@ -1,12 +1,18 @@
-"""C07 - GT exponentiation (partial claim: sampling range + constants)."""
-from .. import guards, reject, consts, scalar
+"""C07 - GT exponentiation: exponent-domain value numbering, sampling range, constants."""
+from .. import guards, reject, consts, scalar, formulas
 from ..facts import strip, walk, loc_str
 from .. import pathrules as pr
 from .. import ranges
 
 NS = 'embedded_pairing::bls12_381::'
 
-EXPL = ('Partial claim. a^k for all k and the decomposition arithmetic are value-level and NOT decided. Decided: (R-REJECT) '
+EXPL = ('(R-POLY/exp) exponentiate_gt(a, c) is interpreted in the exponent domain with the 4x64 digit bits as symbols: the result '
+        'exponent is linear in the bits and bit i of digit j has weight 2^i*|x|^j modulo r (using q = x and q^6 = -1 modulo r for the '
+        'Frobenius/conjugate table), every one of the 256 bits is used, the found-one flag idiom is PROVEN equivalent to unconditional '
+        'squaring (the guarded statement fixes the accumulator once all consumed bits are zero), for distinct and aliased result; the '
+        'generic square-and-multiply routines weight bit i by 2^i for every bit of the operand width; (R-POLY/cyclotomic) the fast '
+        'squaring equals a*a on the cyclotomic subgroup (difference in the span of the subgroup relations). The division-based '
+        'decomposition arithmetic (k -> digits) is value-level and NOT decided. Also decided: (R-REJECT) '
         'in PowersOfX::random each digit loop exits only when the digit compares below |x| and the outer loop only when the '
         'recombined y compares below r (the "uniformly chosen y in [0,r)" clause), all four digits are drawn and digit k is '
         'recombined with |x|^k (R-CONST); bls_x facts; the simultaneous-exponentiation loop consumes every bit of the 64-bit '
@@ -16,11 +22,14 @@ EXPL = ('Partial claim. a^k for all k and the decomposition arithmetic are value
 def run(ctx):
     ctx.explanation = EXPL
     ctx.level = 'other'
-    ctx.assumptions = ['the exponentiation arithmetic is not decided']
+    ctx.assumptions = ['the digit decomposition k -> (c0..c3) by repeated division is not decided; tower operations are the field operations (C04)']
     for cfg, prog in ctx.programs().items():
         n = guards.rule_defout(ctx, cfg, prog, name_filter=lambda f: 'Fq12' in f['qn'] or 'exponentiate' in f['qn'])
         ctx.floor('R-DEFOUT accumulation functions[%s]' % cfg, n, 3)
         reject.rule_powers_of_x(ctx, cfg, prog)
+        c = formulas.rule_cyclotomic(ctx, cfg, prog)
+        e = formulas.rule_exponents_gt(ctx, cfg, prog, which=('gtexp', 'generic'))
+        ctx.floor('R-POLY cyclotomic/exponent obligations[%s]' % cfg, c + e, 7)
         consts.rule_pairing_constants(ctx, cfg, prog)
         fs = [f for f in prog.fn_by_qn(NS + 'Fq12::exponentiate_gt') if 'PowersOfX' in f['params'][1]['t']['s']]
         ctx.require(len(fs) == 1, 'Fq12::exponentiate_gt(Fq12, PowersOfX) not found')
